@@ -529,8 +529,13 @@ func (s *Server) handleFileTransfer(ctx context.Context, rwc io.ReadWriter) erro
 	defer dontPanic(s.Logger)
 
 	// The first 16 bytes contain the file transfer.
+	// Read all 16 bytes before decoding them: a single Read may return only part of the preamble.
 	var t transfer
-	if _, err := io.CopyN(&t, rwc, 16); err != nil {
+	var preamble [16]byte
+	if _, err := io.ReadFull(rwc, preamble[:]); err != nil {
+		return fmt.Errorf("error reading file transfer: %w", err)
+	}
+	if _, err := t.Write(preamble[:]); err != nil {
 		return fmt.Errorf("error reading file transfer: %w", err)
 	}
 
